@@ -126,10 +126,17 @@ func genPlan(r *vrt.Run, hi int) Plan {
 		p.SideLen = 1 + rng.Intn(3)
 	}
 	at := 0
+	// onSide: the side chain has just been imported and is canonical (this tree makes every
+	// imported chain canonical) until the next insert step re-imports the main chain from the
+	// fork point. Freezing in that window would finalize side blocks and wipe the main-chain
+	// blocks at those heights, after which the main chain can never be imported again
+	// ("unknown ancestor" by design) — no freeze steps are generated there.
+	onSide := false
 	for at < p.Len {
 		switch k := rng.Intn(10); {
 		case k < 5 || at == 0:
 			at += 1 + rng.Intn(p.Len-at)
+			onSide = false
 			p.Steps = append(p.Steps, Step{Kind: "insert", A: at})
 			if p.Fat > 0 && len(p.Steps) == 1 {
 				p.Steps = append(p.Steps, Step{Kind: "restart"})
@@ -137,10 +144,11 @@ func genPlan(r *vrt.Run, hi int) Plan {
 			if p.SideAt > 0 && at > p.SideAt+p.SideLen && rng.Intn(2) == 0 {
 				p.Steps = append(p.Steps, Step{Kind: "side"})
 				p.SideAt = -p.SideAt // inserted
+				onSide = true
 			}
 		case k < 7:
 			p.Steps = append(p.Steps, Step{Kind: "restart"})
-		case k < 8 && at > 3:
+		case k < 8 && at > 3 && !onSide:
 			p.Steps = append(p.Steps, Step{Kind: "freeze", A: 1 + rng.Intn(at-1)})
 		default:
 			// (C39_NO_PATH_SETHEAD=1 restricts SetHead to hash-scheme scenarios, for comparison
